@@ -157,14 +157,14 @@ def raw_fp(idnt):
             for k in sorted(idnt._raw_data.keys())}
 
 
-def issue(idnt, steps, options, via_fit):
+def issue(idnt, steps, options, via_fit, details=False):
     steps, options = copy.deepcopy(steps), copy.deepcopy(options)
     try:
         if via_fit:
             idnt.fit_model(preprocessing=steps,
                            preprocessing_options=options)
         else:
-            idnt.apply_preprocessing(steps, options)
+            idnt.apply_preprocessing(steps, options, ret_details=details)
     except BaseException as e:  # noqa
         return "EXC:" + type(e).__name__
     return "ok"
@@ -238,9 +238,13 @@ def run_sequence(rec, rng, cid):
                 hist.append(["fit_model()", "ok"])
             except BaseException as e:  # noqa
                 hist.append(["fit_model()", "EXC:" + type(e).__name__])
-        res = issue(idnt, steps, options, via_fit)
+        details = bool(not via_fit and rng.random() < .25)
+        if details:
+            rec.event("requests asking for preprocessing details")
+        res = issue(idnt, steps, options, via_fit, details)
         hist.append([{"steps": steps, "options": options,
-                      "via_fit_model": via_fit, "kind": what}, res])
+                      "via_fit_model": via_fit, "kind": what,
+                      "ret_details": details}, res])
         case = {"id": cid, "curve": desc, "history": hist}
         rec.evaluated(dg=(desc, hist),
                       nontrivial=prev != (steps, options))
